@@ -166,6 +166,26 @@ func runAfter(c *core.Ctx) {
 	}
 }
 
+// twoStrings: two statements, each with a double-quoted string over two lines, in one text - the
+// quote columns and the indentations of the continuation lines in every relation to each other
+// (blanks; with a tab in front of the second statement or of a continuation line every fourth time).
+func twoStrings(f func(string)) {
+	for q1 := 0; q1 <= 12; q1 += 2 {
+		for i1 := 0; i1 <= 18; i1++ {
+			for q2 := 0; q2 <= 12; q2 += 2 {
+				for i2 := 0; i2 <= 18; i2++ {
+					sp := func(n int) string { return strings.Repeat(" ", n) }
+					t := sp(q1) + "k \"a\n" + sp(i1) + "b\";\n" + sp(q2) + "m \"c d\n" + sp(i2) + "e\";"
+					f(t)
+					if (i1+i2)%4 == 0 {
+						f(sp(q1) + "k \"a\n\t" + sp(i1) + "b\";\n\t" + sp(q2) + "m \"c\n\t" + sp(i2) + "d\n" + sp(i1) + "e\";")
+					}
+				}
+			}
+		}
+	}
+}
+
 func run(c *core.Ctx) {
 	if strings.HasPrefix(c.Shard, "after/") {
 		runAfter(c)
@@ -185,6 +205,7 @@ func run(c *core.Ctx) {
 			}
 			if n == 1 {
 				texts = append(texts, lexspace.KeywordTexts()...) // every keyword with escapes only a pattern may keep
+				twoStrings(func(t string) { texts = append(texts, t) })
 			}
 			for _, text := range texts {
 				if c.Expired() {
